@@ -64,6 +64,18 @@ func (fr *Frame) execCall(st *State, in ssa.Instruction, cc *ssa.CallCommon) *Va
 					return fr.applyContract(st, in, ct, sig, nil, args, nil)
 				}
 			}
+			// call through a function-valued struct field with a fieldfunc contract
+			if ld, ok := cc.Value.(*ssa.UnOp); ok {
+				if fa, ok := ld.X.(*ssa.FieldAddr); ok {
+					stT := derefType(fa.X.Type())
+					if stt, ok := stT.Underlying().(*types.Struct); ok {
+						key := typeKey(stT) + "." + stt.Field(fa.Field).Name()
+						if ct := c.eng.fieldFuncs[key]; ct != nil {
+							return fr.applyContract(st, in, ct, sig, fr.get(st, fa.X), args, nil)
+						}
+					}
+				}
+			}
 			if r := fr.dynamicSplit(st, in, v, sig, args); r != nil {
 				return r
 			}
@@ -158,9 +170,10 @@ func (fr *Frame) bumpAlloc(st *State) {
 // lock ghost state is per thread: callees are assumed lock-balanced, so an unknown call does not
 // change which locks this thread holds.
 var immutableFields = map[string]bool{}
+var counterGhosts = map[string]bool{}
 
 func havocExempt(k string) bool {
-	if strings.HasPrefix(k, "v:") || k == "g:lockw" || k == "g:lockr" {
+	if strings.HasPrefix(k, "v:") || k == "g:lockw" || k == "g:lockr" || counterGhosts[k] {
 		return true
 	}
 	if strings.HasPrefix(k, "f:") {
